@@ -432,11 +432,31 @@ def oracle_m(ctx, p, d, Q, R, stats, notes):
             if not (rel(mu1 * aecf, mf[0], 1e-12) and rel(mu2 * aecf, mf[1], 1e-12)):
                 ctx.fail("fpproc: complex permeability (%r,%r) x AECF is not the block's (%r,%r), %s" % (mu1, mu2, mf[0], mf[1], where), problem=p,
                          query=[hx(x), hx(y), k]); return
-            # mu_fd of a non-laminated linear block: mu e^{-j theta_h} from the problem file
-            if not wire and fb.get("d_lam", 0.0) == 0 and int(fb.get("lamtype", 0)) == 0:
-                ex = fb.get("mu_x", 1.0) * complex(math.cos(math.radians(fb.get("phi_hx", 0.0))), -math.sin(math.radians(fb.get("phi_hx", 0.0))))
-                if not rel(mf[0], ex, 1e-12):
-                    ctx.fail("fpproc: mu_fdx %r of a solid linear block is not mu_x e^{-j phi_hx} = %r" % (mf[0], ex), problem=p); return
+            # frequency-dependent permeability of a linear block without on-edge laminations, re-derived from the problem file with
+            # the formula of the FEMM manual: mu e^{-j phi}; laminated in plane (d_lam > 0): (mu e^{-j phi} tanh(K)/K) fill + (1 - fill)
+            # with K = e^{-j phi/2} (1+j) d / (2 delta), delta = sqrt(2 / (omega sigma mu mu0)) (sigma = 0: tanh(K)/K -> 1), for
+            # EACH direction with its own mu and hysteresis angle
+            if not wire and int(fb.get("lamtype", 0)) == 0 and not fb.get("bh"):
+                import cmath
+                def mu_fd(mu, phi):
+                    e = mu * cmath.exp(-1j * math.radians(phi))
+                    d = fb.get("d_lam", 0.0)
+                    if d == 0:
+                        return e
+                    fill = fb.get("lamfill", 1.0)
+                    sig = fb.get("sigma", 0.0)
+                    if sig == 0:
+                        return e * fill + (1 - fill)
+                    delta = math.sqrt(2.0 / (2 * math.pi * freq * sig * 1e6 * mu * mu0))
+                    K = cmath.exp(-1j * math.radians(phi) / 2) * (1 + 1j) * d * 1e-3 / (2 * delta)
+                    return e * cmath.tanh(K) / K * fill + (1 - fill)
+                for nm, got, want in (("mu_fdx", mf[0], mu_fd(fb.get("mu_x", 1.0), fb.get("phi_hx", 0.0))),
+                                      ("mu_fdy", mf[1], mu_fd(fb.get("mu_y", 1.0), fb.get("phi_hy", 0.0)))):
+                    stats["mu_fd_checked"] = stats.get("mu_fd_checked", 0) + 1
+                    if not rel(got, want, 1e-9):
+                        ctx.fail("fpproc: %s %r of a linear block (mu %r/%r, d_lam %r, sigma %r, fill %r) is not the frequency-dependent "
+                                 "permeability of that direction %r" % (nm, got, fb.get("mu_x"), fb.get("mu_y"), fb.get("d_lam", 0.0),
+                                                                        fb.get("sigma", 0.0), fb.get("lamfill", 1.0), want), problem=p); return
         Hs = (Hc.real, Hc.imag) if freq == 0 else (0.0, 0.0)
         ok = True
         for (B, mu, H, hc) in ((B1, mu1, H1, Hs[0]), (B2, mu2, H2, Hs[1])):
@@ -601,8 +621,14 @@ def m_problems(rng, quick):
         ps.append(c05_gen.gen_problem(rng, harmonic=False, size_nodes=rng.choice([25, 40]) if quick else rng.choice([40, 100, 250]),
                                       force=(dict(main_iron=True) if k % 3 == 1 else {})))
     for k in range(3 if quick else 12):
+        # k % 3 == 1: the main region is grain-oriented, conducting, laminated iron (mu_x != mu_y, d_lam > 0, sigma > 0, fill < 1): each
+        # direction has its own skin depth in the frequency-dependent permeability
         ps.append(c05_gen.gen_problem(rng, harmonic=True, size_nodes=rng.choice([25, 40]) if quick else rng.choice([40, 100, 250]),
-                                      force=(dict(main_iron=True) if k % 3 == 1 else {})))
+                                      force=(dict(main_iron=True, iron=dict(mu_x=rng.choice([2000.0, 500.0]), mu_y=rng.choice([150.0, 40.0]),
+                                                                             lamtype=0, d_lam=rng.choice([0.5, 0.35]), sigma=rng.choice([2.0, 5.0]),
+                                                                             lamfill=rng.choice([0.95, 0.9]), phi_hx=rng.choice([0.0, 10.0]),
+                                                                             phi_hy=rng.choice([0.0, 15.0])))
+                                             if k % 3 == 1 else {})))
     strata_s = [5, 6, 4, 7, 1, 3, 2, 0] if quick else [5, 6, 4, 7, 1, 3, 2, 0, 9, 11, 8, 10] * 2
     for k in (strata_s[:4] if quick else strata_s):
         ps.append(xaxi.gen_problem(rng, harmonic=False, size_nodes=rng.choice([16, 24, 36]) if quick else rng.choice([30, 80, 200]),
